@@ -61,7 +61,7 @@ typedef struct {
   uint64_t stalls;          /* stalls of >=100 steps injected */
   uint64_t spins;           /* spin/idle hook events */
   uint64_t rand_draws;
-  uint64_t clock_reads, clock_zero, clock_jumps;
+  uint64_t clock_reads, clock_zero, clock_jumps, tsc_reads;
   uint64_t virt_ns;         /* virtual nanoseconds elapsed */
   uint64_t poisoned_stacks, poisoned_results;
   uint64_t signature;       /* FNV hash of the event log */
